@@ -13,7 +13,9 @@ CLAIMED = {
    text="Unbounded proof, for all strings, positions and offset settings, that LineNumbersCalculator builds the exact "
         "line-start table (loop invariant over the real find() loop) and that pos_to_lineno_colno returns the line "
         "whose start plus column equals the position (postcondition over the real bisect lookup, incl. the embedded "
-        "assert and both result shapes).",
+        "assert and both result shapes); LatexWalker keeps one calculator built with its own offsets, parse errors leaving "
+        "parse_content carry the line / column of their own position, and format_pos (the report text) shows line and column "
+        "whenever the error has them, whatever their value (line 0 / column 0 included).",
    ref="DESIGN.md section 5, C20"),
 }
 
@@ -75,7 +77,10 @@ CLAIMED['C17'] = dict(
         "computed value' holds iff the inherit guard mentions every field in that read-set. sub_context/__init__/"
         "set_fields/get_fields/_safe_eq are executed symbolically over abstract field values: fields not recorded as "
         "changed keep the parent's value, the receiver is not written. An AST scan shows tokenizer and parsers read "
-        "only public fields and tables covered by PS_inv.",
+        "only public fields and tables covered by PS_inv. The receiver of sub_context may itself be a derived state (the child "
+        "records the receiver, not an ancestor, as the state its changed keys are relative to), and a syntactic frame obligation "
+        "per table builder shows that the recompute branch assigns only its own tables (no in-place update of a field value "
+        "or of a local alias of one: those objects are shared with the state it was derived from).",
    ref="DESIGN.md section 5, C17",
    note=NOTE + "; the recompute code itself is uninterpreted (a change there affects derived and fresh states alike); "
         "'behaves identically' follows from equal tables + the reader scan, stated not mechanised")
@@ -87,7 +92,8 @@ CLAIMED['C04'] = dict(
         "protection takes precedence, that the five protection schemes and the unknown-character policies equal their "
         "documented definitions, that one iteration of the main loop performs exactly one documented step (ASCII skip / "
         "first matching rule in order / printable ASCII copied / policy) and advances, that __init__ compiles rule i to an "
-        "application of rule i, that the partial encoder copies one token through and raises nothing, and that the cached "
+        "application of rule i, that the partial encoder copies exactly the ONE token the tokenizer reads at that position "
+        "(whatever its kind: macro with trailing space, \\begin{name}, brace, comment) and raises nothing, and that the cached "
         "helper encodes with an encoder carrying exactly the requested options. result == ENC(NFC(s)) and the "
         "concatenation homomorphism are the induction over iterations: stated, not mechanised.",
    ref="DESIGN.md section 5, C04",
@@ -102,8 +108,11 @@ CLAIMED['C13'] = dict(
         "branch (C04 step relation + _do_unknown_char_fail always raises). First sentence, lexical part: the ten "
         "LaTeX-active ASCII characters are keys of the default table, values are brace-balanced apart from escaped braces, "
         "have no unescaped % # &, balanced $ and no \\begin/\\end, and no brace scheme leaves a dangling control word. "
-        "NOT decided: that the output parses in strict mode (needs every table value checked against the walker "
-        "database; no contract expresses that).",
+        "Both tables escape all ten active characters. First sentence, a necessary condition decided row by row ON THE REAL CODE "
+        "(backend cpython, complete over the tables): for every table character X, every brace scheme and the inputs X, Xa, aX, "
+        "X1 the real encoder's output parses in the real strict parser -- 13 rows of the unicode-xml table (combining accents "
+        "mapped to a bare accent macro) fail and are recorded as known findings. NOT decided: that the encodings of arbitrary "
+        "strings parse in strict mode (the composition of chunks under the walker database; no contract expresses that).",
    ref="DESIGN.md sections 5 (C13) and 6",
    note=NOTE + "; table rows are program data enumerated completely; HexstrN ('%X' formatting) is ASCII by A-LIB")
 
@@ -130,8 +139,11 @@ CLAIMED['C05'] = dict(
         "all paths of the functions under contract, every raise site of the parse-error family located (0 <= pos <= len(s)), "
         "_ParsingContext.__exit__ fills in line/column of the error's own position (C20) and propagates in strict mode, "
         "illegal closing tokens are never silently accepted by the collector, a \\begin/\\end macro is no expression, a "
-        "required stop condition not met raises. 'Always rejected' for every well-formed document plus one fault is the "
-        "stated (not mechanised) lemma over these mechanisms.",
+        "required stop condition not met raises, a group / environment body / math run stops only at its own closing token "
+        "(stop-token units), the expression parser raises nothing else when the input ends where an expression is expected. "
+        "'Always rejected' for every well-formed document plus one fault is the stated (not mechanised) lemma over these "
+        "mechanisms. The assumption of an unbounded call stack (A-SEM) is probed on the real code with 50 / 400 nested groups: "
+        "the 400-deep input raises RecursionError (known finding).",
    ref="DESIGN.md section 5, C05", note=_PARSE_NOTE)
 CLAIMED['C06'] = dict(
    text="Proof of the mechanisms: in tolerant mode __exit__ swallows every LatexWalkerParseError and remembers the error object, "
@@ -139,7 +151,10 @@ CLAIMED['C06'] = dict(
         "backwards; every token (incl. recovery tokens) advances, process_one_token makes progress in both modes and "
         "process_tokens' loop has the variant len(s) - position; the general-nodes parser attaches everything collected before "
         "the error; the tolerant flag is read only at the error-handling entry points (AST scan), so an error-free run executes "
-        "the same statements in both modes, and end-of-stream / successful parser results are returned identically in both modes.",
+        "the same statements in both modes, and end-of-stream / successful parser results are returned identically in both modes; "
+        "the expression parser hands back an (empty) group node when the input ends where an expression is expected. The "
+        "assumption of an unbounded call stack (A-SEM) is probed on the real code with 50 / 400 nested groups: the 400-deep "
+        "input raises RecursionError (known finding).",
    ref="DESIGN.md section 5, C06", note=_PARSE_NOTE)
 
 _L2T_NOTE = NOTE + ("; children of a node enter through the interface contracts of node_to_text / nodelist_to_text (each verified by "
@@ -157,7 +172,9 @@ CLAIMED['C07'] = dict(
         "default text database, located in the real source by file and line on each run and verified for each argument signature "
         "the walker database declares for the rows that use it plus the no-arguments shape of a macro read as a single token "
         "(index obligations on nodeargs / argnlist, node_arg_to_text's precondition at each call site). Table obligations tie the "
-        "two hand-synchronised databases together. latex_to_text = render(parse) with the tolerant-parse contract of C06.",
+        "two hand-synchronised databases together. latex_to_text = render(parse) with the tolerant-parse contract of C06. The "
+        "assumption of an unbounded call stack (A-SEM) is probed on the real code with 50 / 400 nested groups: the 400-deep "
+        "input raises RecursionError (known finding).",
    ref="DESIGN.md section 5, C07", note=_L2T_NOTE)
 
 CLAIMED['C12'] = dict(
@@ -205,7 +222,10 @@ CLAIMED['C02'] = dict(
         "the tree equals the derivation for every document of the grammar, see DESIGN section 6): the argument-letter decision table "
         "of LatexStandardArgumentParser.get_arg_parser_instance for m { o [ s * t<c> r<c1c2> d<c1c2> v v<c1c2> e{chars} "
         "AnyDelimited[Optional] with symbolic delimiter characters (parser class, delimiters, optional, allow_pre_space) and the "
-        "parser cache; LatexArgumentsParser.parse: slot j holds the result of parser j, called in order; an absent optional "
+        "parser cache; LatexArgumentsParser.parse: slot j holds the result of parser j, called in order, and the arguments parser "
+        "itself only looks ahead (every call that moves the reader is logged; input is consumed by the argument parsers only); "
+        "CallableSpec.make_body_parser builds the body parser for the name in the \\begin token (also for the catch-all spec of "
+        "undeclared environments); an absent optional "
         "delimited argument returns (None, None) and consumes nothing, allow_pre_space=False being the line-break rule "
         "(LatexDelimitedExpressionParser.parse for groups and math, verified against the parser interface contract); the optional "
         "one-character marker (star, t<c>) is read at most once and gives its whitespace back when absent (loop contract); bracket "
